@@ -504,23 +504,23 @@ def step (s : St) : Call → R
     let rename (i : Src) : Src :=
       match i with
       | .table t p tmp =>
-        if t.alias.isNone && tmp.isNone && tableInBase s1.r t then
+        if t.alias.isNone && tmp.isNone && tableInBase s.r t then
           .table { t with alias := some ((t.name.getD []) ++ ['2']) } p tmp
         else i
       | i => i
-    let add (j : Join) : R := pure { s1 with r := { s1.r with joins := s1.r.joins ++ [j] } }
+    let add (j : Join) : R := pure { s1 with r := { s.r with joins := s.r.joins ++ [j] } }
     match kind with
     | .on none _ => raise "JoinException"
     | .on (some c) collate =>
-      if joinMissing s1.r item1 c then raise "JoinException" else add (.on (rename item1) how c collate)
+      if joinMissing s.r item1 c then raise "JoinException" else add (.on (rename item1) how c collate)
     | .onField [] => raise "JoinException"
     | .onField names =>
-      match s1.r.from_ with
+      match s.r.from_ with
       | [] => raise "IndexError"
       | f :: _ =>
         let cs := names.map fun n => Term.basic ['='] (mkField n (some (srcRef f))) (mkField n (some (srcRef item1))) none
         match andAll cs with
-        | some c => if joinMissing s1.r item1 c then raise "JoinException" else add (.on (rename item1) how c none)
+        | some c => if joinMissing s.r item1 c then raise "JoinException" else add (.on (rename item1) how c none)
         | none => raise "JoinException"
     | .using [] => raise "JoinException"
     | .using names => add (.usingJ (rename item1) how (names.map fun n => mkField n none))
